@@ -138,7 +138,57 @@ static void start_remote_scenario(int kind, bool with_sleep) {
     vrt_outcome("woke=%ld", (long)s[S_WOKE]);
 }
 
+// two threads run the scheduler at once (start() may be called by several threads): while one of them is kept busy by the coroutine
+// it woke, the other one - idle - serves the next sleep at its time point
+static cocls::async<void> busy_after_sleep(cocls::scheduler &sch, int dur_ms, int busy_ms) {
+    int64_t *s = vrt_scratch();
+    long want = ms_now() + dur_ms;
+    s[S_WANT + 0] = want;
+    co_await sch.sleep_until(tp_t(std::chrono::milliseconds(want)), &g_ids[0]);
+    s[S_AT + 0] = ms_now();
+    {
+        // the woken coroutine keeps its thread for a while (a timed wait nobody notifies)
+        vstd::mutex m;
+        vstd::condition_variable cv;
+        std::unique_lock<vstd::mutex> lk(m);
+        cv.wait_until(lk, tp_t(std::chrono::milliseconds(ms_now() + busy_ms)));
+    }
+    s[S_WOKE + 0]++;
+}
+static void two_workers_scenario() {
+    int64_t *s = vrt_scratch();
+    {
+        cocls::scheduler sch;
+        cocls::future<void> stop1, stop2;
+        cocls::promise<void> p1 = stop1.get_promise(), p2 = stop2.get_promise();
+        vstd::thread w1([&] {
+            vrt_label("worker1");
+            sch.start(stop1);
+        });
+        vstd::thread w2([&] {
+            vrt_label("worker2");
+            sch.start(stop2);
+        });
+        busy_after_sleep(sch, 5, 7).detach();  // due at +5, then busy until +12
+        sleeper(sch, 1, 10).detach();          // due at +10: the other worker is idle then
+        vrt_label("main-wait-sleepers");
+        while (!s[S_WOKE + 0] || !s[S_WOKE + 1]) vrt_yield();
+        vrt_label("main-stop-workers");
+        p1();
+        p2();
+        w1.join();
+        w2.join();
+        vrt_label("main");
+        VRT_CHECK(s[S_AT + 1] >= s[S_WANT + 1], "sched/early", "sleep 1 woke at %ld ms, requested %ld ms", (long)s[S_AT + 1], (long)s[S_WANT + 1]);
+        if (vrt_early_clock_advances() == 0)
+            VRT_CHECK(s[S_AT + 1] == s[S_WANT + 1], "sched/late-while-idle", "two scheduler threads: the sleep due at %ld ms was served at %ld ms although one of the threads was idle", (long)s[S_WANT + 1],
+                      (long)s[S_AT + 1]);
+        vrt_outcome("b_at=%ld", (long)(s[S_AT + 1] - s[S_WANT + 1]));
+    }
+}
+
 VRT_REGISTER(reg_sched) {
+    vrt::add("sch_two-workers", [] { two_workers_scenario(); });
     static const char *sr_names[] = {"value", "exception", "void"};
     for (int k = 0; k < 3; k++)
         for (int ws = 0; ws < 2; ws++) vrt::add(std::string("sch_start-remote_") + sr_names[k] + (ws ? "_with-sleep" : ""), [=] { start_remote_scenario(k, ws != 0); });
